@@ -45,7 +45,7 @@ CHECKS = {
          "Props/C18.lean: retained atoms are heavy (and bonded under exclusion); Geo.ofCoords is only evaluated at retained atoms; deleting the non-retained atoms (a strictly monotone renumbering of the retained ones, MonoRel) leaves every fingerprint equal (delete_floating_fingerprint_coords). Tied to the code by displacing hydrogens and floating atoms, deleting floating atoms, and checking floating atoms contribute when exclusion is off.",
          "Trusted: Lean kernel; RDKit invariants under atom deletion (assumed, exercised).", "DESIGN.md section 5 (C18)"),
  "C05": ("Lean 4 model of the CSR+names+props database with refinement theorems to a list of rows + differential correspondence on histories",
-         "Machine-checked theorems (Props/C05.lean, Props/C05Hist.lean) over the database model (matrix rows, names, separately maintained name index, property "
+         "Machine-checked theorems (Props/C05.lean, Props/C05Hist.lean, Props/C05Cols.lean: a concatenation aligns property columns by name whatever order they were declared in) over the database model (matrix rows, names, separately maintained name index, property "
          "columns): history_refines / faithful_container - EVERY history of operations (new, add, from_array, subset, as_type, fold, concat, set_prop, update_props, pickle, savez+load) run on the "
          "operational model yields, step by step, the same answers and the same abstract pool as the list-of-rows specification, the representation invariant holds in every reachable pool, and db[i] / db[name] "
          "answer as the specification's rows do; the compiled driver runs model and specification side by side on every generated history. "
